@@ -624,11 +624,17 @@ func fillChecks(t *schema.Table) error {
 	if !sqlx.Has(t.Attrs, &c) {
 		return fmt.Errorf("missing CREATE statement for table: %q", t.Name)
 	}
-	for i := 0; i < len(c.S); {
+	for i, stmt := 0, c.S; i < len(c.S); {
 		idx := reCheck.FindStringSubmatchIndex(c.S[i:])
 		// No more matches.
 		if len(idx) != 4 {
 			break
+		}
+		// Skip matches that are part of a quoted identifier or a string
+		// literal. e.g. a column named "check (a > 0)" or DEFAULT 'check (1)'.
+		if quoted(stmt[:len(stmt)-len(c.S)+idx[0]]) {
+			c.S = c.S[idx[1]:]
+			continue
 		}
 		check := &schema.Check{Expr: scanExpr(c.S[idx[1]-1:])}
 		// Matching group for constraint name.
@@ -639,6 +645,21 @@ func fillChecks(t *schema.Table) error {
 		c.S = c.S[idx[1]+len(check.Expr)-1:]
 	}
 	return nil
+}
+
+// quoted reports if the given statement prefix ends
+// inside a quoted identifier or a string literal.
+func quoted(prefix string) bool {
+	var q byte
+	for i := 0; i < len(prefix); i++ {
+		switch c := prefix[i]; {
+		case q == 0 && (c == '"' || c == '`' || c == '\'' || c == '['):
+			q = c
+		case q == '[' && c == ']', q != 0 && q != '[' && c == q:
+			q = 0
+		}
+	}
+	return q != 0
 }
 
 // scanExpr scans the expression string (wrapped with parens)
